@@ -154,7 +154,8 @@ class MultiMachine(Machine):
                 if sp["type"] in ("xy", "indexed"):
                     ax = None if sp["type"] != "xy" else ("x" if rng.random() < 0.3 else "y")
                     ops.append(["add_error", {"at": rng.choice(["member", "multi"]), "fits": i, "axis": ax,
-                                              "err": fitlib.gen_errval(rng, fitlib.size_of(sp), False), "corr": rng.choice([0.0, 0.3, 1.0]), "rel": rng.random() < 0.2, "name": None}])
+                                              "err": fitlib.gen_errval(rng, fitlib.size_of(sp), False), "corr": rng.choice([0.0, 0.3, 1.0]), "rel": rng.random() < 0.2, "name": None,
+                                              "ref": "model" if (ax != "x" and rng.random() < 0.3) else "data"}])
             elif r < 0.78:
                 nm = rng.choice(allnames)
                 v = self._val(rng, members, nm)
@@ -418,16 +419,20 @@ class MultiMachine(Machine):
                         continue
                     if a["name"] is not None and a["name"] in s.names:
                         continue
-                    kw = dict(err_val=ev, name=a["name"], correlation=a["corr"], relative=a["rel"])
+                    refw = a.get("ref", "data")
+                    rel = bool(a["rel"]) and refw == "data"  # (model-relative sources: dynamic, kept out of the joint closed form)
+                    kw = dict(err_val=ev, name=a["name"], correlation=a["corr"], relative=rel, reference=refw)
                     if a["at"] == "multi":
                         multi.add_error(fits=i, axis=a["axis"], **kw)
                         rn = a["name"]
                     else:
                         rn = s.fit.add_error(a["axis"], **kw) if s.spec["type"] == "xy" else s.fit.add_error(**kw)
-                    src = RefSource(rn, 0 if a["axis"] == "x" else 1, "simple", a["rel"], err=evn, corr=a["corr"])
-                    s.ref.sources.append((src, "data"))
+                    src = RefSource(rn, 0 if a["axis"] == "x" else 1, "simple", rel, err=evn, corr=a["corr"])
+                    s.ref.sources.append((src, refw))
                     s.names.append(rn)
-                    s.src_where.append("data")
+                    s.src_where.append(refw)
+                    if refw == "model":
+                        res.probe("member_model_referenced_source")
                     after = "add_error@%s" % a["at"]
                 elif k == "add_shared":
                     J = list(range(len(sims))) if a["fits"] == "all" else list(a["fits"])
